@@ -212,7 +212,8 @@ def r1_cutover_pairs(ctx):
         w, call = _loader_with(ctx, "_loadop4_binary", reader)
         if w is None:
             continue
-        sites = [c for c in w.cutovers if c["function"] == reader]
+        cols = C.loops_of_call(w, rf)
+        sites = [c for c in w.cutovers if any(_is_sub_frame(c["frame"], lp.frame) for lp in cols)]
         if len(sites) != 1:
             ctx.error(f"{reader}: cut-over site", rf, len(sites))
             continue
@@ -351,10 +352,7 @@ def r2_declared_sizes(ctx):
 # ------------------------------------------------------------------------------------------------------------------ R3
 def _string_loops(w, reader_fn):
     """(column loop, string loop) of a sparse reader inside a walk: the outermost loop whose node lies in the reader, and the loop in it"""
-    def inside(lp):
-        return any(lp.node is n for n in ast.walk(reader_fn))
-    cols = [lp for lp in C.loops_in(w.top.items) if inside(lp)]
-    outer = [lp for lp in cols if not any(lp is x for o in cols for x in C.loops_in(o.items))]
+    outer = C.loops_of_call(w, reader_fn)
     if len(outer) != 1:
         return None, None
     inner = C.loops_in(outer[0].items, deep=False)
@@ -437,7 +435,7 @@ def r3_sibling_decoders(ctx):
         pos = puts[0][2]
         r = pos[1] if len(pos) > 1 else None
         if binary:
-            sites = [c for c in w.cutovers if c["function"] == reader]
+            sites = [c for c in w.cutovers if c["frame"].equals(lp.frame)]
             L = sites[0]["count_ff"] if len(sites) == 1 else None
         else:
             L = pos[4] if len(pos) > 4 else None
@@ -679,8 +677,7 @@ def r4_read_equals_skip(ctx):
         w, call = _loader_with(ctx, "_loadop4_binary", reader)
         if w is None:
             continue
-        cols_l = [lp for lp in C.loops_in(w.top.items) if any(lp.node is n for n in ast.walk(rf))]
-        outer = [lp for lp in cols_l if not any(lp is x for o in cols_l for x in C.loops_in(o.items))]
+        outer = C.loops_of_call(w, rf)
         if len(outer) != 1:
             ctx.error(f"{reader}: column loop", rf)
             continue
@@ -727,18 +724,11 @@ def r4_read_equals_skip(ctx):
     w, call = _loader_with(ctx, "_loadop4_binary", "_rd_dense_binary")
     if w is not None:
         # after the reader: the rest of the sentinel record.  The reader returns the record length it read last.
-        post = []
-        seen_loop = 0
-        for it in w.top.items:
-            if it[0] == "loop":
-                seen_loop += 1
-                post = []
-            else:
-                post.append(it)
-        # post = items after the last top-level loop: [head of first record] ... reader loops are nested deeper (inlined) so they are top-level too
-        tail = C.tidy(_until_exit(post))
         rf = ctx.src.func(OP4, "OP4._rd_dense_binary")
-        col = [lp for lp in C.loops_in(w.top.items, deep=False) if any(lp.node is n for n in ast.walk(rf))]
+        col = C.loops_of_call(w, rf)
+        post = [t for lp, t in _after_loops(w.top.items) if len(col) == 1 and lp is col[0]]
+        post = post[0] if len(post) == 1 else []
+        tail = C.tidy(_until_exit(post))
         ok = len(col) == 1 and len(tail) == 1 and tail[0][0] == "B"
         if ok:
             # the record length in force after the loop: entry value (first record) or the one read in the last iteration
@@ -756,8 +746,9 @@ def r4_read_equals_skip(ctx):
         sk_items = C.tidy(_strip_exit(sk.top.items))
         sk_loops = [lp for lp in C.loops_in(sk.top.items) if not any(lp is x for o in C.loops_in(sk.top.items) for x in C.loops_in(o.items))]
         first_line = F.fn("ln", sk.top.id, F.const(0))
-        ok = len(sk_items) >= 3 and sk_items[0] == sk_items[0] and sk_items[0][0] == "L" and C.same(sk_items[0][1], F.const(1)) \
-            and sk_items[-1][0] == "L" and C.same(sk_items[-1][1], F.const(1)) and len(sk_loops) == 3
+        tails = [t for lp, t in _after_loops(sk.top.items) if any(lp is x for x in sk_loops)]
+        ok = len(sk_items) >= 2 and sk_items[0][0] == "L" and C.same(sk_items[0][1], F.const(1)) and len(sk_loops) == 3 and len(tails) == 3 \
+            and all(C.total(_until_exit(t), "L") is not None and C.same(C.total(_until_exit(t), "L"), F.const(1)) for t in tails)
         ctx.check(ok, "_skipop4_ascii: one column-header line, one of three column loops (dense, bigmat, nonbigmat), one trailing line", skf,
                   None if ok else C.show(sk.top.items)[:300])
         used = set()
@@ -766,8 +757,7 @@ def r4_read_equals_skip(ctx):
             w, call = _loader_with(ctx, "_loadop4_ascii", reader)
             if w is None:
                 continue
-            cols_l = [lp for lp in C.loops_in(w.top.items) if any(lp.node is n for n in ast.walk(rf))]
-            outer = [lp for lp in cols_l if not any(lp is x for o in cols_l for x in C.loops_in(o.items))]
+            outer = C.loops_of_call(w, rf)
             skipcalls = [e for e in w.events if e[0] == "call" and e[1] == "self._skipop4_ascii"]
             if len(outer) != 1 or len(skipcalls) != 1:
                 ctx.error(f"{reader}: column loop / skip call", rf)
@@ -798,13 +788,8 @@ def r4_read_equals_skip(ctx):
                           "(ceil(n / perline) data lines per block; (L + p - 1)//p == (L - 1)//p + 1), decode the same header fields and stop on the same "
                           "column test", col.node, None if ok else {"read": C.show(mine.items)[:300], "differences": whys})
             # around the loop: the loader reads one column-header line before and one trailing line after the reader
-            post = []
-            for it in w.top.items:
-                if it[0] == "loop":
-                    post = []
-                else:
-                    post.append(it)
-            t = C.total(_until_exit(post), "L")
+            post = [t for lp, t in _after_loops(w.top.items) if lp is col]
+            t = C.total(_until_exit(post[0]), "L") if len(post) == 1 else None
             ok = t is not None and C.same(t, F.const(1))
             ctx.check(ok, f"_loadop4_ascii ({label}): one trailing line is read after the matrix, as the skipper does", w.fn, nontrivial=False)
 
@@ -967,8 +952,8 @@ def r6_cursor(ctx):
     fn = w.fn
     n = 0
     for lp in C.loops_in(w.top.items):
-        stores = [(nm, ix, val, st) for nm, ix, val, st in w.all_cells if any(st is x for x in ast.walk(lp.node))]
-        sites = [c for c in w.cutovers if any(c["node"] is x for x in ast.walk(lp.node))]
+        stores = [(nm, ix, val, st) for nm, ix, val, st in w.all_cells if _rat(ix) and _lv_in(ix, lp.frame)]
+        sites = [c for c in w.cutovers if c["frame"].equals(lp.frame)]
         seen = set()
         for nm, ix, val, st in stores:
             p = C.fn_parts(ix) if _rat(ix) else None
